@@ -133,8 +133,14 @@ func (in *c10inst) Key() string {
 }
 
 func c10RuleMap(ver string, expiring bool) map[string]interface{} {
+	// the two versions name the event variable differently: the same events match,
+	// the pattern index files both under one node, the JSON differs
+	v := "?e"
+	if ver == "v2" {
+		v = "?ev"
+	}
 	r := map[string]interface{}{
-		"when":   map[string]interface{}{"pattern": map[string]interface{}{"e": "?e"}},
+		"when":   map[string]interface{}{"pattern": map[string]interface{}{"e": v}},
 		"action": map[string]interface{}{"code": "'" + ver + "'"},
 	}
 	if expiring {
